@@ -11,9 +11,9 @@ git apply --check "$OUT/patch.diff" || { echo "CONFIRM $SID: patch does not appl
 git apply "$OUT/patch.diff"
 b=ok; go build ./... 2>/dev/null || b=FAIL
 t=$(go test -vet=off -count=1 ./... 2>&1 | grep -c "^FAIL\|^--- FAIL")
-dw=$( (sh "$OUT/demo/run.sh" 2>&1; echo "rc=$?") | tail -3 | tr '\n' ' ')
+dw=$( (bash "$OUT/demo/run.sh" 2>&1; echo "rc=$?") | tail -3 | tr '\n' ' ')
 git checkout -q -- . ; git clean -fdq
-dwo=$( (sh "$OUT/demo/run.sh" 2>&1; echo "rc=$?") | tail -3 | tr '\n' ' ')
+dwo=$( (bash "$OUT/demo/run.sh" 2>&1; echo "rc=$?") | tail -3 | tr '\n' ' ')
 git checkout -q -- . ; git clean -fdq
 echo "CONFIRM $SID: build=$b suite_failures=$t"
 echo "   demo with change   : $dw"
